@@ -12,7 +12,7 @@ func baseWeights() map[string]int {
 		"burn_regen": 2, "unimplemented": 1, "bank_send": 8,
 		"basket_create": 4, "put": 14, "take": 12, "basket_fee": 2, "update_curator": 2, "update_date_criteria": 3,
 		"sell": 14, "update_sell": 10, "cancel_sell": 5, "buy": 16, "basket_token_market": 4, "allowed_denom": 3, "fee_params": 3, "fee_pool_send": 3,
-		"anchor": 3, "attest": 3, "define_resolver": 2, "register_resolver": 3, "resolver_combo": 1, "class_combo": 1, "batch_combo": 2, "market_combo": 2, "prefix_project": 1,
+		"anchor": 3, "attest": 3, "define_resolver": 2, "register_resolver": 3, "resolver_combo": 1, "class_combo": 1, "batch_combo": 2, "market_combo": 2, "prefix_project": 1, "sell_all_then_buy": 2,
 	}
 }
 
